@@ -14,6 +14,7 @@ package safelog
 import (
 	"bytes"
 	"encoding/hex"
+	"errors"
 	"fmt"
 	"math/rand"
 	"net"
@@ -634,9 +635,18 @@ type emissionRecorder struct {
 	ems [][]byte
 }
 
+// A scrubber that keeps emitting (a loop that no longer ends) must end the run with a verdict, not with the
+// machine's memory: past two million emissions of one recorder the sink fails, and past three million it panics.
 func (e *emissionRecorder) Write(p []byte) (int, error) {
 	e.mu.Lock()
 	defer e.mu.Unlock()
+	if len(e.ems) > 3000000 {
+		panic("c07: the scrubber wrote more than 3000000 times to one sink (emission loop that does not end)")
+	}
+	if len(e.ems) > 2000000 {
+		e.ems = append(e.ems, nil)
+		return 0, errors.New("c07: sink flooded")
+	}
 	e.ems = append(e.ems, append([]byte(nil), p...))
 	return len(p), nil
 }
